@@ -1,6 +1,6 @@
 (* C20 — an aggregate is equivalent to requesting its dependencies.
-   Property theorems only; proofs are in Proofs/SysC20.v, Proofs/SysSvc.v, Proofs/SysRoot.v, Proofs/ResolverClosure.v. *)
-From Zinoma.Proofs Require Import SysC20 ResolverClosure.
+   Property theorems only; proofs are in Proofs/SysC20.v, SysC20eq.v, SysSvc.v, SysRoot.v, ResolverClosure.v. *)
+From Zinoma.Proofs Require Import SysC20 SysC20eq SysWitness ResolverClosure.
 From Zinoma.Model Require Import Resolver.
 
 (* what runs: requesting the aggregate G works on G plus exactly what requesting its dependencies works on *)
@@ -37,3 +37,50 @@ Theorem C20_root_sees_dependencies :
   forall (fx w : bool) (g : graph) (roots : list tid) (s : sys),
     reachable fx w g roots s -> r_unavB s = ∅ -> r_unavS s = ∅ -> forall r k, r ∈ roots -> ready g (hist s) k r.
 Proof. intros fx w g roots s. exact (root_idle_all_ready fx g roots w s). Qed.
+
+(* THE EQUIVALENCE AS ONE STATEMENT about finished one-shot runs.  G an aggregate over ds, in any closed acyclic graph; s1 a finished
+   run of `zinoma G`, s2 a finished run of `zinoma d1 ... dn` (repaired handlers, any interleaving and merge order; "finished" =
+   nothing can happen any more; nothing failed, no termination signal among the labels).  Then both end the same way — both stay
+   alive for their services, or both have exited with status 0 — and they ran the same builds and services: every target that is
+   not an aggregate was started the same number of times (at most once) and succeeded in one run iff it did in the other.
+   (With a failure both exit with an error: C07_failure_fails_the_run; what is blocked is the same by C20_acknowledged_iff_dependencies.) *)
+Theorem C20_same_outcome :
+  forall (g : graph) (rank : tid -> nat) (G : tid) (ds : list tid),
+    (forall t k deps d, g !! t = Some (k, deps) -> d ∈ deps -> is_Some (g !! d)) ->
+    (forall t k deps d, g !! t = Some (k, deps) -> d ∈ deps -> (rank d < rank t)%nat) ->
+    g !! G = Some (AAggregate, ds) ->
+    forall (ls1 : list label) (s1 : sys) (ls2 : list label) (s2 : sys),
+      run_labels true false (init_sys g [G]) ls1 = Some s1 -> LSignal ∉ ls1 -> quiescent true false s1 = true ->
+      (forall t, ObFail t ∉ hist s1) ->
+      run_labels true false (init_sys g ds) ls2 = Some s2 -> LSignal ∉ ls2 -> quiescent true false s2 = true ->
+      (forall t, ObFail t ∉ hist s2) ->
+      ((ph s1 = PWaitTerm /\ ph s2 = PWaitTerm) \/ (ph s1 = PExited SOk /\ ph s2 = PExited SOk)) /\
+      forall t kt deps, g !! t = Some (kt, deps) -> kt <> AAggregate ->
+        count_occ obs_eq_dec (hist s1) (ObStart t) = count_occ obs_eq_dec (hist s2) (ObStart t) /\
+        (count_occ obs_eq_dec (hist s1) (ObStart t) <= 1)%nat /\
+        (ObSucc t ∈ hist s1 <-> ObSucc t ∈ hist s2).
+Proof. exact aggregate_same_outcome. Qed.
+
+(* the hypotheses are met: `5` aggregates the service `3` (which depends on the build `1`) and the build `4`; `zinoma 5` and
+   `zinoma 3 4` both finish waiting for a signal with the service alive, having run 1, 3 and 4 once each *)
+Example C20_same_outcome_run_of_the_aggregate :
+  let g : graph := <[1%N := (ABuild, [])]> (<[3%N := (AService, [1%N])]> (<[4%N := (ABuild, [])]> (<[5%N := (AAggregate, [3%N; 4%N])]> ∅))) in
+  exists s,
+    run_labels true false (init_sys g [5%N])
+      [LDeliver 5%N true; LDeliver 3%N true; LDeliver 5%N true; LDeliver 3%N true; LDeliver 1%N true; LDeliver 1%N true;
+       LBuildDone 1%N RCompleted; LDeliver 3%N true; LDeliver 3%N true; LDeliver 5%N true; LDeliver 5%N true; LDeliver 4%N true;
+       LDeliver 4%N true; LDeliver 5%N true; LBuildDone 4%N RCompleted; LDeliver 5%N true; LRoot; LRoot; LRootIdle] = Some s /\
+    (quiescent true false s && bool_decide (ph s = PWaitTerm) &&
+     bool_decide (hist s = [ObStart 1%N; ObSucc 1%N; ObStart 3%N; ObSucc 3%N; ObStart 4%N; ObSucc 4%N])) = true.
+Proof. apply witness_intro. vm_compute. reflexivity. Qed.
+
+Example C20_same_outcome_run_of_the_dependencies :
+  let g : graph := <[1%N := (ABuild, [])]> (<[3%N := (AService, [1%N])]> (<[4%N := (ABuild, [])]> (<[5%N := (AAggregate, [3%N; 4%N])]> ∅))) in
+  exists s,
+    run_labels true false (init_sys g [3%N; 4%N])
+      [LDeliver 3%N true; LDeliver 3%N true; LDeliver 1%N true; LDeliver 1%N true; LBuildDone 1%N RCompleted; LDeliver 3%N true;
+       LDeliver 3%N true; LDeliver 4%N true; LDeliver 4%N true; LBuildDone 4%N RCompleted; LRoot; LRoot; LRoot; LRoot;
+       LRootIdle] = Some s /\
+    (quiescent true false s && bool_decide (ph s = PWaitTerm) &&
+     bool_decide (hist s = [ObStart 1%N; ObSucc 1%N; ObStart 3%N; ObSucc 3%N; ObStart 4%N; ObSucc 4%N])) = true.
+Proof. apply witness_intro. vm_compute. reflexivity. Qed.
